@@ -466,8 +466,10 @@ def run(tier):
                   "member-probe:null-member-with-default:value", "member-probe:null-members-in-list:value",
                   "member-probe:nested-null-member:value", "member-probe:omits-defaulted-nonnull:value",
                   "member-probe:list-omits:value", "member-probe:omits-everything:legacy")
-    for key, sch in G.representation_probes():
-        if not quick or any(k in key for k in quick_keys):
+    for key, sch in G.class_probes() + G.representation_probes():
+        if key.startswith("incremental-probe"):
+            continue   # not executable with the standard entry points (see below)
+        if not quick or key.startswith("subclass-probe") or any(k in key for k in quick_keys):
             probes.append((key, sch))
     n_probes = len(probes)
     for i in range(-n_probes, n_schemas):
@@ -487,7 +489,7 @@ def run(tier):
             mode = "sdl" if i % 2 == 0 else "prog"
             try:
                 s = (build_schema(sdl, experimental_directives_on_directive_definitions=True) if mode == "sdl"
-                     else G.spec_to_schema(spec, rng))
+                     else G.spec_to_schema(spec, rng, subclasses=i % 4 == 1))
                 if validate_schema(s):
                     raise ValueError("invalid")
             except Exception as e:  # noqa: BLE001
@@ -495,6 +497,12 @@ def run(tier):
                 continue
             rep0 = {"relation": "introspection", "mode": mode, "sdl": sdl, "programmatic": mode == "prog"}
             key0 = f"{mode}:{sdl}"
+        if any(d.name in ("defer", "stream") for d in s.directives):
+            # execute()/graphql_sync() refuse a schema that lists @defer/@stream unless the experimental incremental
+            # executor is used ("unexpectedly contains experimental directives"): such schemas cannot be introspected
+            # with the standard entry points and are outside this property
+            ck.count("skipped_out_of_fragment_experimental_directives")
+            continue
         ck.count("schemas_" + mode)
         try:
             full = introspection_from_schema(s, **{k: True for k in OPTS})
